@@ -21,6 +21,8 @@ out = {
          "kind_free_text": "symbolic-real execution: LLVM-14 pass (symfp) rewrites every double operation of libnano + harness into runtime calls; symbolic reals are NaN-boxed handles to z3 terms; the real code runs natively, every fcmp on symbolic data is decided by z3 nlsat (fresh QF_NRA query) and forks the process when both sides are feasible; obligations are unsat-of-negation queries; counter-examples are replayed on the plain IEEE build"},
         {"name": "LIFT-C", "path": "engine/lift", "serves_properties": sorted(p for p, s in checks.PROPERTIES.items() if any(u["engine"] == "lift" for u in s["units"])),
          "kind_free_text": "clang-14 LLVM IR of the real functions -> C (ir2c, byte-addressed memory) -> CBMC 6.11 bounded model checking with unwinding assertions, witness twins and differential validation of the translation"},
+        {"name": "SBV", "path": "engine/sbv", "serves_properties": sorted(p for p, s in checks.PROPERTIES.items() if any(u["engine"] == "sbv" for u in s["units"])),
+         "kind_free_text": "symbolic bit-vector execution: own KLEE-style interpreter of the clang-14 -O1 bitcode of libnano + harness working on host memory (the same code is linked natively, libstdc++ runs natively on concrete data); integers/pointers/bytes are z3 bit-vector terms with a byte-level shadow memory; branches on symbolic data fork the process, symbolic pointers are merged over their feasible targets, obligations are unsat-of-negation QF_BV queries; counter-examples are replayed on the native build"},
     ],
     "checks": [],
     "not_applicable": [],
@@ -35,7 +37,7 @@ for pid in ids:
             "thorough_cmd": "./check %s --tier thorough" % pid,
             "evidence_file": "evidence/%s.json" % pid,
             "replay_cmd_template": "./check %s --replay {path}" % pid,
-            "engine": "+".join(sorted({"SRE" if u["engine"] == "sre" else "LIFT-C" for u in s["units"]})),
+            "engine": "+".join(sorted({{"sre": "SRE", "sbv": "SBV", "lift": "LIFT-C"}[u["engine"]] for u in s["units"]})),
             "level_claimed": {"category": s.get("level", "other"), "text": s["level_text"], "design_ref": "DESIGN.md section 3, " + pid},
             "level_note": s["level_note"],
             "technique": s["technique"],
